@@ -1,5 +1,6 @@
 CONSTANTS
- Oids = {"o1","o2","n1"}
+ Oids = {"o1","o2","n1","z1"}
+ Missized = {"z1"}
  NonCanon = {"n1"}
  Paths = {"p1","p2"}
  Branches = {"main","dev"}
